@@ -63,6 +63,161 @@ theorem gen_loopContinues_eq (f : Bool) : NV.Gen.C11.loopContinues (if f then 1 
 /-- **statement order of destruct_object**: inventory hooks, then set_heart_beat (ob, 0), then the O_DESTRUCTED store -/
 theorem gen_destructOrder_eq : NV.Gen.C11.destructOrder = [0, 1, 2] := rfl
 
+/-- **memmove of the removal branch**: `if ((num = num_hb_objs - (index + 1))) memmove (heart_beats + index, heart_beats +
+    (index + 1), num * sizeof (heart_beat_t)); num_hb_objs--;` -/
+theorem gen_rmMove_eq (index n : Int) :
+    NV.Gen.C11.rmMove index n = (index, index + 1, n - (index + 1), decide (n - (index + 1) ≠ 0), n - 1) := rfl
+
+/-- ... which on the list is "erase the entry at `index`" (for an index inside the array) -/
+theorem applyMove_eq_erase (l : List Entry) (i : Nat) (h : i < l.length) :
+    applyMove l (NV.Gen.C11.rmMove (i : Int) (l.length : Int)) = l.eraseIdx i := by
+  rw [gen_rmMove_eq]
+  unfold applyMove
+  simp only
+  have h1 : (i : Int).toNat = i := by omega
+  have h2 : ((i : Int) + 1).toNat = i + 1 := by omega
+  have h3 : ((l.length : Int) - ((i : Int) + 1)).toNat = l.length - (i + 1) := by omega
+  have h4 : ((l.length : Int) - 1).toNat = l.length - 1 := by omega
+  rw [h1, h2, h3, h4, List.eraseIdx_eq_take_drop_succ]
+  by_cases hg : (l.length : Int) - ((i : Int) + 1) ≠ 0
+  · rw [decide_eq_true hg, if_pos rfl]
+    have ht : (l.drop (i + 1)).take (l.length - (i + 1)) = l.drop (i + 1) :=
+      List.take_of_length_le (by simp)
+    rw [ht]
+    apply List.take_left'
+    simp only [List.length_append, List.length_take, List.length_drop]
+    omega
+  · rw [decide_eq_false hg, if_neg (by decide)]
+    have hi : i + 1 = l.length := by omega
+    have hd : l.drop (i + 1) = [] := by rw [hi]; exact List.drop_length
+    rw [hd, List.append_nil]
+    congr 1
+    omega
+
+/-- **query_heart_beat** answers 0 for an object without O_HEART_BEAT, else the interval (`time_to_heart_beat`) of its
+    entry, else 0 -/
+theorem gen_queryReturns_eq : NV.Gen.C11.queryReturns = [0, 1, 0] := rfl
+
+/-- **reload_object**: O_ENABLE_COMMANDS cleared, then `set_heart_beat (obj, 0)`, then create() -/
+theorem gen_reloadOrder_eq : NV.Gen.C11.reloadOrder = [0, 1, 2] := rfl
+
+/-- **clone_object**: the blueprint's heart beat is switched off before create() of the clone runs -/
+theorem gen_cloneOrder_eq : NV.Gen.C11.cloneOrder = [0, 1] := rfl
+
+/-- **search loop of the removal branch**: from `num_hb_objs` downwards, `while (index--)`, not found = `index < 0` -/
+theorem gen_search_eq (n i : Int) :
+    NV.Gen.C11.searchStart n = n ∧ NV.Gen.C11.searchNext i = (i - 1, decide (i ≠ 0)) ∧
+    NV.Gen.C11.searchMiss i = decide (i < 0) := ⟨rfl, rfl, rfl⟩
+
+/-- **entry of set_heart_beat**: the mask tested by its first statement is O_DESTRUCTED -/
+theorem gen_shbGuard_eq : NV.Gen.C11.shbGuardMask = NV.Gen.C11.oDestructed := rfl
+
+/-- **retune** (object already on the list): `if (to < 0) return 0;` then `(short)to` into both fields -/
+theorem gen_retuneStore_eq (to t i : Int) :
+    NV.Gen.C11.retuneStore to t i = (decide (to < 0), wrap16 to, wrap16 to) := rfl
+
+/-- **growth of the array**: first allocation HEART_BEAT_CHUNK, `num_hb_objs == max_heart_beats` adds a chunk -/
+theorem gen_growCap_eq (cap n : Nat) :
+    (NV.Gen.C11.growCap (cap : Int) (n : Int)).toNat = (if cap = 0 then chunk else if n = cap then cap + chunk else cap) := by
+  have hch : chunk = 32 := by decide
+  unfold NV.Gen.C11.growCap
+  rw [hch]
+  split
+  · rename_i h; have : cap = 0 := by omega
+    simp [this]
+  · rename_i h; have hc : ¬ (cap = 0) := by omega
+    rw [if_neg hc]
+    split
+    · rename_i h2; have : n = cap := by omega
+      rw [if_pos this]; omega
+    · rename_i h2; have : ¬ (n = cap) := by omega
+      rw [if_neg this]; omega
+
+/-- **save_context / restore_context** carry command_giver -/
+theorem gen_ctxSaveRestore_eq : NV.Gen.C11.ctxSaveRestore = [1, 1] := rfl
+
+/-- **heart_beats()** answers the list in reverse order -/
+theorem gen_heartBeatsReversed_eq : NV.Gen.C11.heartBeatsReversed = true := rfl
+
+/-- **backend()**: the recovery point is set in front of the loop; the loop resets eval_cost, removes destructed objects
+    (and swaps replaced programs) and then calls call_heart_beat when the flag is set - the sequence the harness command
+    `tick` reproduces -/
+theorem gen_backendOrder_eq : NV.Gen.C11.backendOrder = [3, 0, 1, 2] := rfl
+
+/-- **heartbeat_timer_callback** sets heart_beat_flag to 1 -/
+theorem gen_timerSetsFlag_eq (f : Int) : NV.Gen.C11.timerSetsFlag f = 1 := rfl
+
+theorem timerFlagHeartbeat_val : NV.Gen.C11.timerFlagHeartbeat = 2 := rfl
+
+/-- the guard of the round: `(MAIN_OPTION (timer_flags) & TIMER_FLAG_HEARTBEAT) && (num_hb_to_do > 0)` (after
+    `num_hb_to_do = num_hb_objs`); the bit test is `((timer_flags / 2) % 2) * 2` -/
+abbrev enters (n tf : Int) : Prop := (tf / 2) % 2 * 2 ≠ 0 ∧ n > 0
+
+/-- **entry of a round**: `heart_beat_flag = 0; num_hb_to_do = num_hb_objs; if ((timer_flags & TIMER_FLAG_HEARTBEAT) &&
+    num_hb_to_do > 0) { heart_beat_index = 0; while ...`: heart_beat_index keeps its (stale) value when the round is not
+    entered -/
+theorem gen_roundEntry_eq (n idx todo fl tf : Int) :
+    NV.Gen.C11.roundEntry n idx todo fl tf = (if enters n tf then 0 else idx, n, 0, decide (enters n tf)) := rfl
+
+/-- **end of a round**: `heart_beat_index = num_hb_to_do = 0;` ... `current_heart_beat = 0;` -/
+theorem gen_roundExit_eq (idx todo cur : Int) : NV.Gen.C11.roundExit idx todo cur = (0, 0, 0) := rfl
+
+/-- **no round**: heart_beat_index / num_hb_to_do are left alone, `current_heart_beat = 0;` -/
+theorem gen_roundSkip_eq (idx todo cur : Int) : NV.Gen.C11.roundSkip idx todo cur = (idx, todo, 0) := rfl
+
+/-- **statements around the call of heart_beat()**: current_heart_beat, command_giver (only for living objects) and
+    eval_cost are set up in front of every call; command_giver is cleared after it -/
+theorem gen_callFrame_eq : NV.Gen.C11.callFrame = [1, 2, 3, 4, 0, 5, 6] := rfl
+
+/-- **error_handler**: the catch branch leaves first, the heart-beat switch-off comes before the final longjmp -/
+theorem gen_errOrder_eq : NV.Gen.C11.errOrder = [0, 1, 2] := rfl
+
+/-- **error_handler, `if (current_heart_beat)` block**: `set_heart_beat (current_heart_beat, 0); current_heart_beat = 0;` -/
+theorem gen_errBlock_eq : NV.Gen.C11.errBlock = [1, 2] := rfl
+
+/-- error_handler in the hand-written form that the invariant proofs unfold -/
+def errorHandlerRef (w : World) : World :=
+  match w.cur with
+  | some c => { setHeartBeat w c 0 with cur := none }
+  | none => w
+
+theorem errorHandler_eq_ref (w : World) : errorHandler w = errorHandlerRef w := by
+  unfold errorHandler errorHandlerRef
+  rw [gen_errBlock_eq]
+  cases hc : w.cur with
+  | none => rfl
+  | some c => simp only [List.foldl, errStmt, hc]
+
+theorem finish_ref (w : World) : finish w = { w with idx := 0, todo := 0, cur := none } := by
+  unfold finish leave
+  rw [gen_roundExit_eq]
+  rfl
+
+/-- the statements in front of the call: whatever ran before (another heart_beat that enabled commands, used up its
+    evaluation cost or raised an error), the called object starts with command_giver = itself iff it is living, and a
+    fresh evaluation cost -/
+theorem callSetup_ref (w : World) (ob : Nat) :
+    callSetup w ob = { w with cur := some ob, cg := if w.living.contains ob then some ob else none, ec := true } := by
+  unfold callSetup
+  rw [gen_callFrame_eq]
+  have h : ([1, 2, 3, 4, 0, 5, 6] : List Nat).takeWhile (· != 0) = [1, 2, 3, 4] := by decide
+  rw [h]
+  simp only [List.foldl, frameStmt]
+  cases hl : w.living.contains ob <;> simp
+
+theorem callAfter_ref (w : World) (ob : Nat) : callAfter w ob = { w with cg := none } := by
+  unfold callAfter
+  rw [gen_callFrame_eq]
+  have h : (([1, 2, 3, 4, 0, 5, 6] : List Nat).dropWhile (· != 0)).drop 1 = [5, 6] := by decide
+  rw [h]
+  rfl
+
+theorem hbOn_iff (tf : Int) : hbOn tf = true ↔ (tf / 2) % 2 * 2 ≠ 0 := by
+  unfold hbOn
+  rw [timerFlagHeartbeat_val]
+  simp only [decide_eq_true_eq]
+  constructor <;> intro h <;> omega
+
 theorem destructLeaf_ref (w : World) (t : Nat) :
     destructLeaf w t = { setHeartBeat w t 0 with dead := t :: (setHeartBeat w t 0).dead,
                                                  inv := (setHeartBeat w t 0).inv.filter (fun p => p.1 != t) } := by
@@ -70,12 +225,14 @@ theorem destructLeaf_ref (w : World) (t : Nat) :
 
 theorem destructFull_ref (w : World) (t : Nat) :
     destructFull w t =
-      if (hooksPhase w t).1.alive t then (destructLeaf (hooksPhase w t).1 t, (hooksPhase w t).2, true)
-      else ((hooksPhase w t).1, (hooksPhase w t).2, false) := by
+      if (hooksPhase w t).2.2 = .err then ((hooksPhase w t).1, (hooksPhase w t).2.1, .err)
+      else if (hooksPhase w t).1.alive t then (destructLeaf (hooksPhase w t).1 t, (hooksPhase w t).2.1, .ok)
+      else ((hooksPhase w t).1, (hooksPhase w t).2.1, .stop) := by
   unfold destructFull destructLeaf
   rw [gen_destructOrder_eq]
   simp only [List.foldl, fullPhase, leafPhase, if_true, List.nil_append]
-  cases (hooksPhase w t).1.alive t <;> simp
+  rcases hh : hooksPhase w t with ⟨w1, e1, st⟩
+  cases st <;> cases hat : w1.alive t <;> simp [hat]
 
 theorem cursorStep_ref (w : World) :
     cursorStep w = ({ w with idx := w.idx + 1 }, decide (w.idx + 1 = w.todo) || w.flag) := by
@@ -113,13 +270,15 @@ def setHeartBeatRef (w : World) (ob : Nat) (to : Int) : World :=
 
 theorem setHeartBeat_eq_ref (w : World) (ob : Nat) (to : Int) : setHeartBeat w ob to = setHeartBeatRef w ob to := by
   unfold setHeartBeat setHeartBeatRef
-  simp only [gen_clampTo_eq, gen_rmCompensate_eq, gen_appendStore_eq, gen_trunc16_eq]
+  simp only [gen_clampTo_eq, gen_rmCompensate_eq, gen_appendStore_eq, gen_trunc16_eq, gen_retuneStore_eq, gen_growCap_eq,
+    decide_eq_true_eq]
   cases hidx : idxOf ob w.hbs with
   | none => rfl
   | some index =>
+    have hmv := applyMove_eq_erase w.hbs index (idxOf_lt hidx)
     by_cases htodo : w.todo = 0
-    · simp [htodo]
-    · simp [htodo]
+    · simp [htodo, hmv]
+    · simp [htodo, hmv]
 
 /-- the round loop in the hand-written form that the invariant proofs unfold -/
 def roundRef (sc : Scripts) : Nat → World → World × List Ev
@@ -132,16 +291,18 @@ def roundRef (sc : Scripts) : Nat → World → World × List Ev
       | some hb =>
         let t := wrap16 (hb.ticks - 1)
         if !w.nofn.contains hb.ob && decide (t < 1) then
+          let cx : Ev := .ctx hb.ob (w.living.contains hb.ob) (if w.living.contains hb.ob then some hb.ob else none) true
           let w1 := { w with hbs := w.hbs.set w.idx.toNat { hb with ticks := hb.interval }, cur := some hb.ob,
+                             cg := if w.living.contains hb.ob then some hb.ob else none, ec := true,
                              nb := fun o => if o = hb.ob then w.nb o + 1 else w.nb o }
           match runOps w1 hb.ob (sc hb.ob (w.nb hb.ob)) with
-          | (w2, evs, .err) => (errorHandler w2, .beat hb.ob :: evs ++ [.tickAbort])
+          | (w2, evs, .err) => (errorHandler w2, .beat hb.ob :: cx :: evs ++ [.tickAbort])
           | (w2, evs, _) =>
-            let w3 := { w2 with idx := w2.idx + 1 }
-            if w3.idx = w3.todo || w3.flag then (finish w3, .beat hb.ob :: evs ++ [.beatEnd hb.ob, .tickEnd])
+            let w3 := { w2 with cg := none, idx := w2.idx + 1 }
+            if w3.idx = w3.todo || w3.flag then (finish w3, .beat hb.ob :: cx :: evs ++ [.beatEnd hb.ob, .tickEnd])
             else
               match roundRef sc fuel w3 with
-              | (w4, evs') => (w4, .beat hb.ob :: evs ++ .beatEnd hb.ob :: evs')
+              | (w4, evs') => (w4, .beat hb.ob :: cx :: evs ++ .beatEnd hb.ob :: evs')
         else
           let w1 := { w with hbs := w.hbs.set w.idx.toNat { hb with ticks := t }, idx := w.idx + 1 }
           if w1.idx = w1.todo || w1.flag then (finish w1, [.tickEnd])
@@ -163,7 +324,7 @@ theorem round_eq_ref (sc : Scripts) : ∀ (fuel : Nat) (w : World), round sc fue
       | some hb =>
         have hb1 : (if w.nofn.contains hb.ob = true then (-1 : Int) else 0) = (if !w.nofn.contains hb.ob then 0 else -1) := by
           cases w.nofn.contains hb.ob <;> rfl
-        simp only [hb1, gen_hbBody_eq, cursorStep_ref, ih]
+        simp only [hb1, gen_hbBody_eq, cursorStep_ref, ih, callSetup_ref, callAfter_ref, ctxEv]
         cases hf : (!w.nofn.contains hb.ob && decide (wrap16 (hb.ticks - 1) < 1)) with
         | false => simp [hf]
         | true =>
@@ -171,5 +332,35 @@ theorem round_eq_ref (sc : Scripts) : ∀ (fuel : Nat) (w : World), round sc fue
           generalize runOps _ hb.ob _ = r
           rcases r with ⟨w2, evs, st⟩
           cases st <;> simp
+
+/-- call_heart_beat in the hand-written form that the invariant proofs unfold -/
+def tickRef (sc : Scripts) (w : World) : World × List Ev :=
+  if hbOn w.tflags then
+    if (w.hbs.length : Int) > 0 then
+      match round sc w.hbs.length { w with flag := false, idx := 0, todo := (w.hbs.length : Int) } with
+      | (w', evs) => (w', .tickBegin :: evs)
+    else ({ w with flag := false, todo := (w.hbs.length : Int), cur := none }, [.tickBegin, .tickEnd])
+  else ({ w with flag := false, todo := (w.hbs.length : Int), cur := none }, [.tickOff, .tickEnd])
+
+theorem tick_eq_ref (sc : Scripts) (w : World) : tickCore sc w = tickRef sc w := by
+  unfold tickCore tickRef leave
+  simp only [gen_roundEntry_eq, gen_roundSkip_eq]
+  cases hon : hbOn w.tflags with
+  | true =>
+    have hb := (hbOn_iff w.tflags).mp hon
+    by_cases hpos : (w.hbs.length : Int) > 0
+    · have he : enters (w.hbs.length : Int) w.tflags := ⟨hb, hpos⟩
+      rw [decide_eq_true he, if_pos he, if_pos rfl, if_pos rfl, if_pos hpos, if_pos rfl]
+      rfl
+    · have he : ¬ enters (w.hbs.length : Int) w.tflags := fun h => hpos h.2
+      rw [decide_eq_false he, if_neg he, if_neg (by decide), if_pos rfl, if_neg hpos, if_pos rfl]
+      rfl
+  | false =>
+    have hb : ¬ ((w.tflags / 2) % 2 * 2 ≠ 0) := by
+      intro h; have := (hbOn_iff w.tflags).mpr h; rw [hon] at this; cases this
+    have he : ¬ enters (w.hbs.length : Int) w.tflags := fun h => hb h.1
+    rw [decide_eq_false he, if_neg he]
+    simp only [Bool.false_eq_true, if_false, if_true]
+    rfl
 
 end NV.C11
